@@ -1232,3 +1232,26 @@ theorem C17.psBin_sub_space {K : Type} (op : K → K → K) (ps : List (PTree K)
 example : ∃ r, psBin (· + ·) (.node [.node [.leaf [1, 2], .leaf [3]], .node [.leaf [4, 5], .leaf [6]]])
       (.elem (.node [.leaf [10, 20], .leaf [30]])) = some r ∧
     r.flatten = ([11, 22, 33, 14, 25, 36] : List Int) := ⟨_, rfl, by decide⟩
+
+/-- ROUND 6 — `px.ufuncs.<f>(c, out=o)` with a scalar `c` (the scalar / `out` branch of the
+`(2,1)` wrapper; the reduction of that branch to the loop of the `(1,1)` wrapper is by
+construction of `psBinScalarInto`, tied to the real branch by the stratum
+`psvalue/into-scalar/*`): if the call succeeds, only buffers of `o` were written, nothing was
+resized, `o` has the structure of `px`; and if moreover the buffers of `o` are pairwise
+distinct and none of them a buffer of `px`, then `o` holds `psMap (op · c)` of what `px` held
+(by `C17.psBin_scalar` the values of the out-less call `px.ufuncs.f(c)`) and `px` is unchanged.
+Corollary of `C17.psMapInto_frame`, `_success_same_structure`, `_out_contents`. -/
+theorem C17.psBinScalarInto_frame_contents {K : Type} (op : K → K → K) (c : K) (x o : BTree)
+    (h h' : Heap K) (e : psBinScalarInto op c h x o = some h') :
+    (h'.length = h.length ∧ ∀ k, k ∉ o.bufs → h'[k]? = h[k]?) ∧ x.sameTree o = true ∧
+    (o.bufs.Nodup → (∀ k ∈ o.bufs, k ∉ x.bufs) →
+      ∃ t r, x.read h = some t ∧ psBin op t (.scalar c) = some r ∧ o.read h' = some r ∧
+        x.read h' = some t) := by
+  refine ⟨C17.psMapInto_frame _ x o h h' e, C17.psMapInto_success_same_structure _ x o h h' e,
+    fun nd dj => ?_⟩
+  obtain ⟨t, h1, h2, h3⟩ := C17.psMapInto_out_contents _ x o h h' nd dj e
+  exact ⟨t, _, h1, C17.psBin_scalar op c t, h2, h3⟩
+
+example : psBinScalarInto (· + ·) (10 : Int) [[1, 2], [3], [0, 0], [0]]
+    (.node [.buf 0, .buf 1]) (.node [.buf 2, .buf 3]) = some [[1, 2], [3], [11, 12], [13]] := by
+  decide
